@@ -23,6 +23,7 @@ type hookCtl struct {
 	plan     []wproto.PlanStep
 	planIdx  int
 	unforced bool
+	released bool // the call is over: nobody is held at the gate any more
 }
 
 func newHookCtl(rq wproto.Req) *hookCtl {
@@ -43,7 +44,7 @@ const gateTimeout = 2 * time.Second
 func (h *hookCtl) hook(point string, gid uint64, item string) {
 	h.mu.Lock()
 	// gate: wait until every plan entry before "my" entry has happened
-	if !h.unforced && h.planIdx < len(h.plan) {
+	if !h.unforced && !h.released && h.planIdx < len(h.plan) {
 		for {
 			j := -1
 			for k := h.planIdx; k < len(h.plan); k++ {
@@ -52,7 +53,7 @@ func (h *hookCtl) hook(point string, gid uint64, item string) {
 					break
 				}
 			}
-			if j < 0 || h.unforced {
+			if j < 0 || h.unforced || h.released {
 				break
 			}
 			if j == h.planIdx {
@@ -105,5 +106,13 @@ func (h *hookCtl) log(point, item string) {
 	if h.record {
 		h.events = append(h.events, wproto.Event{Seq: h.seq, Point: point, Item: item})
 	}
+	h.mu.Unlock()
+}
+
+// release lets every goroutine still held at the gate go (the call under test has returned).
+func (h *hookCtl) release() {
+	h.mu.Lock()
+	h.released = true
+	h.cond.Broadcast()
 	h.mu.Unlock()
 }
